@@ -66,3 +66,138 @@ package macat
 //@   before call:replyLoop#1 assert info2.Self == mangos.ProtoRep || info2.Self == mangos.ProtoRespondent
 //@   before call:SetOption#3 assert arg0 == mangos.OptionRecvDeadline && a.recvTimeout >= 0 && is_duration(arg1) && int_of(arg1) == a.recvTimeout
 //@   before call:SetOption#4 assert arg0 == mangos.OptionSendDeadline && a.sendTimeout >= 0 && is_duration(arg1) && int_of(arg1) == a.sendTimeout
+
+//@ func (*App).setSocket
+//@   ensures !isnil(old(a.sock)) ==> !isnil(result) && a.sock == old(a.sock)
+//@   ensures isnil(old(a.sock)) ==> isnil(result)
+//@   before call:fnvalue#1 assert isnil(a.sock)
+//@
+//@ func (*App).setSendData
+//@   ensures old(a.sendData) != nil ==> !isnil(result) && a.sendData == old(a.sendData)
+//@   ensures old(a.sendData) == nil ==> isnil(result) && str(a.sendData) == data
+//@
+//@ func (*App).setSendFile
+//@   ghost rd = result0 at call:ReadFile#1
+//@   before call:ReadFile#1 assert arg0 == path && a.sendData == nil
+//@   ensures old(a.sendData) != nil ==> !isnil(result) && a.sendData == old(a.sendData)
+//@   ensures isnil(result) ==> old(a.sendData) == nil && a.sendData == rd
+//@
+//@ func (*App).setFormat
+//@   ensures len(old(a.printFormat)) > 0 ==> !isnil(result)
+//@   ensures !isnil(result) ==> a.printFormat == old(a.printFormat)
+//@   ensures isnil(result) ==> a.printFormat == f && (f == "no" || f == "raw" || f == "ascii" || f == "quoted" || f == "msgpack")
+//@   ensures len(old(a.printFormat)) == 0 && (f == "no" || f == "raw" || f == "ascii" || f == "quoted" || f == "msgpack") ==> isnil(result)
+//@
+//@ func (*App).addDial
+//@   ensures isnil(result) ==> len(a.dialAddr) == old(len(a.dialAddr)) + 1 && a.dialAddr[old(len(a.dialAddr))] == addr && len(a.bindAddr) == old(len(a.bindAddr))
+//@   ensures !isnil(result) ==> len(a.dialAddr) == old(len(a.dialAddr)) && len(a.bindAddr) == old(len(a.bindAddr))
+//@
+//@ func (*App).addBind
+//@   ensures isnil(result) ==> len(a.bindAddr) == old(len(a.bindAddr)) + 1 && a.bindAddr[old(len(a.bindAddr))] == addr && len(a.dialAddr) == old(len(a.dialAddr))
+//@   ensures !isnil(result) ==> len(a.bindAddr) == old(len(a.bindAddr)) && len(a.dialAddr) == old(len(a.dialAddr))
+//@
+//@ func (*App).addSub
+//@   ensures isnil(result) && len(a.subscriptions) == old(len(a.subscriptions)) + 1 && a.subscriptions[old(len(a.subscriptions))] == sub
+//@
+//@ func (*App).Initialize
+//@   ensures isnil(a.sock) && a.recvTimeout == -1 && a.sendTimeout == -1 && a.sendInterval == -1 && a.sendDelay == -1 && a.count == 1
+//@
+//@ func (*App).recvLoop
+//@   at call:RecvMsg#1 set nrecv = nrecv + 1
+//@   at call:printMsg#1 set nprint = nprint + 1
+//@   before call:printMsg#1 assert arg0 == msg && isnil(err) && nprint == nrecv - 1
+//@   before call:Free#1 assert called_since("call:RecvMsg#1", "printMsg")
+//@   loop 1 invariant nprint == nrecv
+//@   ensures nprint == nrecv - 1
+//@
+//@ func (*App).getOptions$3
+//@   before call:setSocket#1 assert fn_is(arg0, "protocol/push.NewSocket")
+//@
+//@ func (*App).getOptions$4
+//@   before call:setSocket#1 assert fn_is(arg0, "protocol/pull.NewSocket")
+//@
+//@ func (*App).getOptions$5
+//@   before call:setSocket#1 assert fn_is(arg0, "protocol/pub.NewSocket")
+//@
+//@ func (*App).getOptions$6
+//@   before call:setSocket#1 assert fn_is(arg0, "protocol/sub.NewSocket")
+//@
+//@ func (*App).getOptions$7
+//@   before call:setSocket#1 assert fn_is(arg0, "protocol/req.NewSocket")
+//@
+//@ func (*App).getOptions$8
+//@   before call:setSocket#1 assert fn_is(arg0, "protocol/rep.NewSocket")
+//@
+//@ func (*App).getOptions$9
+//@   before call:setSocket#1 assert fn_is(arg0, "protocol/surveyor.NewSocket")
+//@
+//@ func (*App).getOptions$10
+//@   before call:setSocket#1 assert fn_is(arg0, "protocol/respondent.NewSocket")
+//@
+//@ func (*App).getOptions$11
+//@   before call:setSocket#1 assert fn_is(arg0, "protocol/bus.NewSocket")
+//@
+//@ func (*App).getOptions$12
+//@   before call:setSocket#1 assert fn_is(arg0, "protocol/pair.NewSocket")
+//@
+//@ func (*App).getOptions$13
+//@   before call:setSocket#1 assert fn_is(arg0, "protocol/star.NewSocket")
+//@
+//@ func (*App).getOptions$16
+//@   before call:setFormat#1 assert arg0 == "raw"
+//@
+//@ func (*App).getOptions$17
+//@   before call:setFormat#1 assert arg0 == "ascii"
+//@
+//@ func (*App).getOptions$18
+//@   before call:setFormat#1 assert arg0 == "quoted"
+//@
+//@ func (*App).getOptions$19
+//@   before call:setFormat#1 assert arg0 == "msgpack"
+//@
+//@ func (*App).getOptions
+//@   ensures forall(i, 0, len(result), result[i].Long == "push" ==> fn_is(result[i].Handle, "(*macat.App).getOptions$3") && !result[i].HasArg)
+//@   ensures forall(i, 0, len(result), result[i].Long == "pull" ==> fn_is(result[i].Handle, "(*macat.App).getOptions$4") && !result[i].HasArg)
+//@   ensures forall(i, 0, len(result), result[i].Long == "pub" ==> fn_is(result[i].Handle, "(*macat.App).getOptions$5") && !result[i].HasArg)
+//@   ensures forall(i, 0, len(result), result[i].Long == "sub" ==> fn_is(result[i].Handle, "(*macat.App).getOptions$6") && !result[i].HasArg)
+//@   ensures forall(i, 0, len(result), result[i].Long == "req" ==> fn_is(result[i].Handle, "(*macat.App).getOptions$7") && !result[i].HasArg)
+//@   ensures forall(i, 0, len(result), result[i].Long == "rep" ==> fn_is(result[i].Handle, "(*macat.App).getOptions$8") && !result[i].HasArg)
+//@   ensures forall(i, 0, len(result), result[i].Long == "surveyor" ==> fn_is(result[i].Handle, "(*macat.App).getOptions$9") && !result[i].HasArg)
+//@   ensures forall(i, 0, len(result), result[i].Long == "respondent" ==> fn_is(result[i].Handle, "(*macat.App).getOptions$10") && !result[i].HasArg)
+//@   ensures forall(i, 0, len(result), result[i].Long == "bus" ==> fn_is(result[i].Handle, "(*macat.App).getOptions$11") && !result[i].HasArg)
+//@   ensures forall(i, 0, len(result), result[i].Long == "pair" ==> fn_is(result[i].Handle, "(*macat.App).getOptions$12") && !result[i].HasArg)
+//@   ensures forall(i, 0, len(result), result[i].Long == "star" ==> fn_is(result[i].Handle, "(*macat.App).getOptions$13") && !result[i].HasArg)
+//@   ensures forall(i, 0, len(result), result[i].Long == "raw" ==> fn_is(result[i].Handle, "(*macat.App).getOptions$16") && !result[i].HasArg)
+//@   ensures forall(i, 0, len(result), result[i].Long == "ascii" ==> fn_is(result[i].Handle, "(*macat.App).getOptions$17") && !result[i].HasArg)
+//@   ensures forall(i, 0, len(result), result[i].Long == "quoted" ==> fn_is(result[i].Handle, "(*macat.App).getOptions$18") && !result[i].HasArg)
+//@   ensures forall(i, 0, len(result), result[i].Long == "msgpack" ==> fn_is(result[i].Handle, "(*macat.App).getOptions$19") && !result[i].HasArg)
+//@   ensures forall(i, 0, len(result), result[i].Long == "bind" ==> fn_is(result[i].Handle, "(*macat.App).addBind$bound") && result[i].HasArg)
+//@   ensures forall(i, 0, len(result), result[i].Long == "connect" ==> fn_is(result[i].Handle, "(*macat.App).addDial$bound") && result[i].HasArg)
+//@   ensures forall(i, 0, len(result), result[i].Long == "bind-ipc" ==> fn_is(result[i].Handle, "(*macat.App).addBindIPC$bound") && result[i].HasArg)
+//@   ensures forall(i, 0, len(result), result[i].Long == "connect-ipc" ==> fn_is(result[i].Handle, "(*macat.App).addDialIPC$bound") && result[i].HasArg)
+//@   ensures forall(i, 0, len(result), result[i].Long == "bind-local" ==> fn_is(result[i].Handle, "(*macat.App).addBindLocal$bound") && result[i].HasArg)
+//@   ensures forall(i, 0, len(result), result[i].Long == "connect-local" ==> fn_is(result[i].Handle, "(*macat.App).addDialLocal$bound") && result[i].HasArg)
+//@   ensures forall(i, 0, len(result), result[i].Long == "subscribe" ==> fn_is(result[i].Handle, "(*macat.App).addSub$bound") && result[i].HasArg)
+//@   ensures forall(i, 0, len(result), result[i].Long == "format" ==> fn_is(result[i].Handle, "(*macat.App).setFormat$bound") && result[i].HasArg)
+//@   ensures forall(i, 0, len(result), result[i].Long == "data" ==> fn_is(result[i].Handle, "(*macat.App).setSendData$bound") && result[i].HasArg)
+//@   ensures forall(i, 0, len(result), result[i].Long == "file" ==> fn_is(result[i].Handle, "(*macat.App).setSendFile$bound") && result[i].HasArg)
+//@   ensures forall(i, 0, len(result), result[i].Long == "cert" ==> fn_is(result[i].Handle, "(*macat.App).setCert$bound") && result[i].HasArg)
+//@   ensures forall(i, 0, len(result), result[i].Long == "key" ==> fn_is(result[i].Handle, "(*macat.App).setKey$bound") && result[i].HasArg)
+//@   ensures forall(i, 0, len(result), result[i].Long == "cacert" ==> fn_is(result[i].Handle, "(*macat.App).setCaCert$bound") && result[i].HasArg)
+//@   ensures forall(i, 0, len(result), result[i].Long == "count" ==> fn_is(result[i].Handle, "(*macat.App).getOptions$14") && result[i].HasArg)
+//@   ensures forall(i, 0, len(result), result[i].Long == "send-interval" ==> fn_is(result[i].Handle, "(*macat.App).getOptions$15") && result[i].HasArg)
+//@   ensures forall(i, 0, len(result), result[i].Short == 68 ==> result[i].Long == "data") && forall(i, 0, len(result), result[i].Short == 70 ==> result[i].Long == "file")
+//@   ensures forall(i, 0, len(result), result[i].Short == 65 ==> result[i].Long == "ascii") && forall(i, 0, len(result), result[i].Short == 81 ==> result[i].Long == "quoted")
+//@   ensures len(result) == 36
+//@
+//@ func (*App).addBindIPC
+//@   before call:addBind#1 assert true
+//@
+//@ func (*App).addDialIPC
+//@   before call:addDial#1 assert true
+//@
+//@ func (*App).addBindLocal
+//@   before call:addBind#1 assert true
+//@
+//@ func (*App).addDialLocal
+//@   before call:addDial#1 assert true
